@@ -1,6 +1,7 @@
 package gojq
 
 import (
+	"encoding/json"
 	"math"
 	"math/big"
 )
@@ -198,5 +199,31 @@ func H_C10_cmp() {
 	vassert(funcOpLe(nil, l, r).(bool) == (want <= 0), "<= exact")
 	vassert(funcOpGt(nil, l, r).(bool) == (want > 0), "> exact")
 	vassert(funcOpGe(nil, l, r).(bool) == (want >= 0), ">= exact")
+	vreach("end")
+}
+
+// H_C10_print: a number that reaches the output untouched is printed with its digits:
+// ints and bigs around the 64-bit boundaries through the library encoder read back exact.
+func H_C10_print() {
+	d := big.NewInt(int64(int8(nondetByte())))
+	bases := []string{"0", "9223372036854775807", "9223372036854775808", "18446744073709551615", "18446744073709551616", "-9223372036854775808", "-9223372036854775809", "-18446744073709551616", "123456789012345678901234567890", "13835058055282163712"}
+	b, _ := new(big.Int).SetString(bases[nondetChoice(len(bases))], 10)
+	b.Add(b, d)
+	var v any = b
+	if b.IsInt64() && nondetBool() {
+		v = int(b.Int64())
+	}
+	text := jsonMarshal(v)
+	back, ok := new(big.Int).SetString(text, 10)
+	vassert(ok, "an integer is printed as a plain decimal integer")
+	if ok {
+		vassert(back.Cmp(b) == 0, "an integer of any size is printed with exactly its digits")
+	}
+	bs, _ := Marshal(v)
+	vassert(string(bs) == text, "Marshal and tojson print the same digits")
+	vassert(funcToString(v).(string) == text && funcToJSON(v).(string) == text, "tostring / tojson print the same digits")
+	// a literal carried as json.Number is printed byte for byte
+	lit := json.Number(text)
+	vassert(jsonMarshal(lit) == text, "a number literal is printed with the digits it had")
 	vreach("end")
 }
